@@ -90,6 +90,7 @@ type histOpts struct {
 	oldEvery      bool                           // check every earlier root after every batch (small histories)
 	oldSample     int                            // else: this many random earlier roots per batch
 	keySample     int                            // 0 = all keys, else sample size for old-root reads
+	skipReads     int                            // batches with index < skipReads get only the root oracles (their reads were checked by a sibling history)
 	r             *rand.Rand
 }
 
@@ -156,12 +157,15 @@ func (ck *checker) runHistory(hist []tl.Batch, o histOpts) (store db.DB, snaps [
 			viol("empty-content-nonempty-root", i+1, fmt.Sprintf("content is empty but root is %x", root))
 			return store, snaps, false
 		}
+		reads := i >= o.skipReads
 		// (a) on the live instance
-		if d := getAll(t, m, everList); d != "" {
-			viol("get-mismatch-live", i+1, d)
-			return store, snaps, false
+		if reads {
+			if d := getAll(t, m, everList); d != "" {
+				viol("get-mismatch-live", i+1, d)
+				return store, snaps, false
+			}
+			c.Count("gets_live", len(everList))
 		}
-		c.Count("gets_live", len(everList))
 		// (b)
 		if o.canon != nil {
 			cr, err := o.canon(m)
@@ -178,13 +182,18 @@ func (ck *checker) runHistory(hist []tl.Batch, o histOpts) (store db.DB, snaps [
 		// (f)
 		ck.noteRoot(o.part, root, m, func() replayCase { return rc(i+1, "root collision") })
 		// (c) reopen
-		t2 := tl.NewTrie(root, store)
-		if d := getAll(t2, m, everList); d != "" {
-			viol("get-mismatch-reopened", i+1, "new Trie instance at committed root: "+d)
-			return store, snaps, false
+		if reads {
+			t2 := tl.NewTrie(root, store)
+			if d := getAll(t2, m, everList); d != "" {
+				viol("get-mismatch-reopened", i+1, "new Trie instance at committed root: "+d)
+				return store, snaps, false
+			}
+			c.Count("gets_reopened", len(everList))
 		}
-		c.Count("gets_reopened", len(everList))
 		snaps = append(snaps, tl.Snapshot{Root: root, Model: m.Clone()})
+		if !reads {
+			continue
+		}
 		// (d) earlier roots
 		var olds []int
 		if o.oldEvery {
@@ -257,7 +266,7 @@ func parallel(n int, f func(i int)) {
 func (ck *checker) exhaustive() {
 	c := ck.c
 	r := c.Rand("universes4")
-	nU := c.Pick(1, 20)
+	nU := c.Pick(3, 22)
 	us := tl.Universes4(r, nU)
 	type uctx struct {
 		u      *tl.Universe4
@@ -279,7 +288,7 @@ func (ck *checker) exhaustive() {
 			uc.probes = append(uc.probes, k)
 		}
 		// absent probes: close neighbours of universe keys that are not in it, one random key
-		for _, k := range []tl.Key{tl.Sibling(us[i].Keys[0], 254), tl.Sibling(us[i].Keys[3], 255), tl.Sibling(us[i].Keys[2], 250), tl.RandKey(r)} {
+		for _, k := range []tl.Key{tl.Sibling(us[i].Keys[0], 254), tl.Sibling(us[i].Keys[3], 255), tl.Sibling(us[i].Keys[2], 250)} {
 			if !inU[k] {
 				uc.probes = append(uc.probes, k)
 			}
@@ -311,12 +320,12 @@ func (ck *checker) exhaustive() {
 		}
 		ucs[i] = uc
 	}
-	runOne := func(uc *uctx, codes []int) {
+	runOne := func(uc *uctx, codes []int, skip int) {
 		hist := make([]tl.Batch, len(codes))
 		for i, code := range codes {
 			hist[i] = tl.Batch4(uc.u, &uc.vals, code)
 		}
-		_, _, ok := ck.runHistory(hist, histOpts{part: "exh", class: "u4/" + uc.u.Name, probes: uc.probes, oldEvery: true,
+		_, _, ok := ck.runHistory(hist, histOpts{part: "exh", class: "u4/" + uc.u.Name, probes: uc.probes, oldEvery: true, skipReads: skip,
 			freshPerBlock: codes[0]&1 == 1, // alternate long-lived instance / instance per block
 			canon: func(m tl.Model) ([]byte, error) {
 				return uc.canon[m.Digest()], nil
@@ -330,7 +339,11 @@ func (ck *checker) exhaustive() {
 		uc := ucs[i/256]
 		b1 := i % 256
 		for b2 := 0; b2 < 256; b2++ {
-			runOne(uc, []int{b1, b2})
+			skip := 1 // the state after b1 alone is read in full once (b2 == 0), not 256 times
+			if b2 == 0 {
+				skip = 0
+			}
+			runOne(uc, []int{b1, b2}, skip)
 		}
 		c.Count("exhaustive_2batch_histories", 256)
 	})
@@ -344,7 +357,7 @@ func (ck *checker) exhaustive() {
 	}
 	parallel(len(tasks), func(i int) {
 		x := tasks[i]
-		runOne(ucs[x.u], []int{x.a, x.b, x.d})
+		runOne(ucs[x.u], []int{x.a, x.b, x.d}, 1)
 		c.Count("sampled_3batch_histories", 1)
 	})
 	names := make([]string, len(us))
